@@ -331,7 +331,8 @@ Definition callee_meets (g : func) (pre : list value -> Prop) (sh : list rkind)
     | _ => True
     end.
 
-Fixpoint wp (c : stmt) (Q : post) (st : store) {struct c} : Prop :=
+(* statements without sub-statements *)
+Definition wp_leaf (c : stmt) (Q : post) (st : store) : Prop :=
   match c with
   | SSkip => normal Q st
   | SAssign x e => esafe e st /\ normal Q (set st x (Sc (evalv e st)))
@@ -418,11 +419,14 @@ Fixpoint wp (c : stmt) (Q : post) (st : store) {struct c} : Prop :=
           forall_rets sh (fun rs => post (argvals args st) rs -> wp_targets ts rs st (normal Q))
       | _, _ => False
       end
-  | SSeq a b => wp a (mkPost (fun st' => wp b Q st') (brk Q) (ret Q)) st
-  | SIf c a b =>
-      esafe c st /\ (truthy (evalv c st) = true -> wp a Q st)
-      /\ (truthy (evalv c st) = false -> wp b Q st)
-  | SWhile l c b =>
+  | SForRun _ _ _ _ _ => False
+  | SBreak => brk Q st
+  | SReturn rs => args_safe rs st /\ ret Q (argvals rs st)
+  | SSeq _ _ | SIf _ _ _ | SWhile _ _ _ | SFor _ _ _ _ _ => False
+  end.
+
+(* loops, parameterised by the wp of their body *)
+Definition wp_while (W : post -> store -> Prop) (l : nat) (c : expr) (Q : post) (st : store) : Prop :=
       match ann l with
       | ALoop mods fact =>
           agree mods st st /\ fact st st /\
@@ -430,11 +434,13 @@ Fixpoint wp (c : stmt) (Q : post) (st : store) {struct c} : Prop :=
             fact st s ->
             esafe c s /\
             (truthy (evalv c s) = true ->
-               wp b (mkPost (fun s' => agree mods st s' /\ fact st s') (normal Q) (ret Q)) s) /\
+               W (mkPost (fun s' => agree mods st s' /\ fact st s') (normal Q) (ret Q)) s) /\
             (truthy (evalv c s) = false -> normal Q s))
       | _ => False
       end
-  | SFor l x lo hi b =>
+.
+
+Definition wp_for (W : post -> store -> Prop) (l : nat) (x : var) (lo hi : expr) (Q : post) (st : store) : Prop :=
       match ann l with
       | ALoop mods fact =>
           esafe lo st /\ esafe hi st /\
@@ -445,17 +451,43 @@ Fixpoint wp (c : stmt) (Q : post) (st : store) {struct c} : Prop :=
              havoc mods st (fun s =>
                let i := to_int (getsc s x) in
                get s x = Sc (VInt i) -> a <= i < h -> fact st s ->
-               wp b (mkPost (fun s' =>
+               W (mkPost (fun s' =>
                                (i + 1 < h -> agree mods st (set s' x (Sc (VInt (i + 1))))
                                              /\ fact st (set s' x (Sc (VInt (i + 1)))))
                                /\ (h <= i + 1 -> normal Q s'))
                             (normal Q) (ret Q)) s))
       | _ => False
       end
-  | SForRun _ _ _ _ _ => False
-  | SBreak => brk Q st
-  | SReturn rs => args_safe rs st /\ ret Q (argvals rs st)
+.
+
+Fixpoint wp (c : stmt) (Q : post) (st : store) {struct c} : Prop :=
+  match c with
+  | SSeq a b => wp a (mkPost (fun st' => wp b Q st') (brk Q) (ret Q)) st
+  | SIf c a b =>
+      esafe c st /\ (truthy (evalv c st) = true -> wp a Q st)
+      /\ (truthy (evalv c st) = false -> wp b Q st)
+  | SWhile l c b => wp_while (wp b) l c Q st
+  | SFor l x lo hi b => wp_for (wp b) l x lo hi Q st
+  | _ => wp_leaf c Q st
   end.
+
+(* one-step unfolding lemmas used by the proof tactics (the goal never contains an expanded
+   continuation: the rest of the program stays a folded [wp] on program syntax) *)
+Definition is_leaf (c : stmt) : bool :=
+  match c with SSeq _ _ | SIf _ _ _ | SWhile _ _ _ | SFor _ _ _ _ _ => false | _ => true end.
+Lemma wp_leaf_intro : forall c Q st, is_leaf c = true -> wp_leaf c Q st -> wp c Q st.
+Proof. intros c Q st L H. destruct c; try discriminate L; exact H. Qed.
+Lemma wp_seq_intro : forall a b Q st,
+  wp a (mkPost (fun st' => wp b Q st') (brk Q) (ret Q)) st -> wp (SSeq a b) Q st.
+Proof. intros; assumption. Qed.
+Lemma wp_if_intro : forall c a b Q st,
+  esafe c st /\ (truthy (evalv c st) = true -> wp a Q st)
+  /\ (truthy (evalv c st) = false -> wp b Q st) -> wp (SIf c a b) Q st.
+Proof. intros; assumption. Qed.
+Lemma wp_while_intro : forall l c b Q st, wp_while (wp b) l c Q st -> wp (SWhile l c b) Q st.
+Proof. intros; assumption. Qed.
+Lemma wp_for_intro : forall l x lo hi b Q st, wp_for (wp b) l x lo hi Q st -> wp (SFor l x lo hi b) Q st.
+Proof. intros; assumption. Qed.
 
 Lemma get_set_same : forall st x v, get (set st x v) x = v.
 Proof.
@@ -544,6 +576,7 @@ Proof.
     destruct H as [H1 [H2 H3]]. rewrite (esafe_sound _ _ H1).
     destruct (truthy (evalv c1 st)) eqn:E; [exact (IHn f Hf _ _ _ (H2 eq_refl)) | exact (IHn f Hf _ _ _ (H3 eq_refl))].
   - (* SWhile *)
+    unfold wp_while in H.
     destruct (ann l) as [mods fact| |] eqn:EA; try contradiction.
     destruct H as [HA [HF HH]].
     (* from any state satisfying the invariant, at any smaller fuel *)
@@ -559,6 +592,7 @@ Proof.
       destruct P as [A' F']. apply IHk; [lia | exact A' | exact F']. }
     exact (L (S f) Hle st HA HF).
   - (* SFor *)
+    unfold wp_for in H.
     destruct (ann l) as [mods fact| |] eqn:EA; try contradiction.
     destruct H as [H1 [H2 [H3 H4]]].
     rewrite (esafe_sound _ _ H1), (esafe_sound _ _ H2).
